@@ -23,7 +23,7 @@ reg(Prop("C02",
          "uniformly random words, single/double bit flips of valid words, valid words, x 2 variants x 4 extension "
          "subsets, short (0-3 bytes) and long inputs with trailing bytes; accept/reject and name compared with the "
          "reference decoder; every case non-trivial",
-         4000, 400000, trusted=RV_TRUSTED, pre=[rvgen.regenerate]))
+         4000, 400000, trusted=RV_TRUSTED, pre=[rvgen.regenerate], thorough_lines=gr.sweep_lines))
 
 reg(Prop("C25",
          [("pair", gr.g_pair, 1)],
